@@ -24,6 +24,7 @@ func init() {
 			{"C15/mint", "GenerateUserToken: always encrypted (never jwt.Signed alone), keys/algorithms/issuer as verified, lifetime <= 5 min, key length guard", c15Mint},
 			{"C15/alg-lists", "every jose/jwt Parse* call in first-party code has exactly the frozen constant allow-lists; no unverified-claims API", func(c *Ctx) { algInventory(c, "C15/alg-lists"); c.Floor("C15/alg-lists", 4, "4 parse sites") }},
 			{"C15/config-keys", "config.Load passes the configured user-token keys on unchanged (the encryption key may only be replaced by a fresh random one)", c15ConfigKeys},
+			{"C15/key-defaults", "config.Load's defaults carry no value for the user-token keys: a built-in key would pass the length test and be the same on every installation", func(c *Ctx) { keyDefaults(c, "C15/key-defaults", []string{"Security.UserTokenEncryptionKey", "Security.UserTokenSigningKey"}) }},
 			{"C15/http", "TokenInfo: claims written only over err == nil; 405 / 400 / 403 on the refusing branches; nothing derived from the claims on error paths", c15HTTP},
 			{"C15/key-wiring", "main copies the configured user-token keys into the variables the verifier reads", func(c *Ctx) { keyWiring(c, "C15/key-wiring", "UserEncryptionKey", "UserSigningKey") }},
 		},
